@@ -7,7 +7,7 @@ import (
 	"pgregory.net/rapid"
 )
 
-func mentions(expr, col string) bool { return strings.Contains(expr, qcol(col)) }
+func mentions(expr, col string) bool { return strings.Contains(expr, qcol(col)) || strings.Contains(expr, "["+col+"]") }
 
 // Sanitize repairs dependencies after edits so that the schema is valid SQLite by construction:
 // dangling index parts, checks, generated expressions, key parts and foreign keys are removed, table
@@ -100,7 +100,21 @@ func (s *Schema) Sanitize() {
 			}
 		}
 		exprOK := func(e string) bool {
-			// every quoted identifier mentioned must be an existing plain column
+			// every quoted identifier mentioned must be an existing plain column ("name" and [name] alike)
+			for rest := e; ; {
+				i := strings.Index(rest, "[")
+				if i == -1 {
+					break
+				}
+				j := strings.Index(rest[i+1:], "]")
+				if j == -1 {
+					break
+				}
+				if !plain[rest[i+1:i+1+j]] {
+					return false
+				}
+				rest = rest[i+j+2:]
+			}
 			rest := e
 			for {
 				i := strings.Index(rest, `"`)
